@@ -525,6 +525,15 @@ fn state_sensitive_inputs(cfg: &RunCfg) -> Vec<(String, Vec<String>)> {
         "synthesised-names".into(),
         vec!["Eg-Mod DEFINITIONS AUTOMATIC TAGS ::= BEGIN\nB ::= SEQUENCE { b BOOLEAN }\nC ::= SEQUENCE { c NULL }\nA ::= SEQUENCE { a INTEGER, ..., [[ COMPONENTS OF B ]], [[ 2: COMPONENTS OF C ]], [[ x INTEGER, y BOOLEAN ]] }\nA2 ::= SEQUENCE { a INTEGER, ..., [[ COMPONENTS OF C ]] }\nN ::= SEQUENCE { inner SEQUENCE { deep CHOICE { p NULL, q SEQUENCE OF SET { r ENUMERATED { e1, e2 } } } }, other SET OF SEQUENCE { z INTEGER (0..7) } }\nEND\n".into()],
     ));
+    // an object set made of other named object sets (three of them, two objects each), used in a table constraint
+    out.push((
+        "object-sets-of-object-sets".into(),
+        vec!["Os-Mod DEFINITIONS AUTOMATIC TAGS ::= BEGIN\nKIND ::= CLASS { &code INTEGER UNIQUE, &Body } WITH SYNTAX { &Body CODE &code }\nk-int KIND ::= { INTEGER CODE 1 }\nk-bool KIND ::= { BOOLEAN CODE 2 }\nk-null KIND ::= { NULL CODE 3 }\nk-oct KIND ::= { OCTET STRING CODE 4 }\nk-str KIND ::= { IA5String CODE 5 }\nk-oid KIND ::= { OBJECT IDENTIFIER CODE 6 }\nk-real KIND ::= { UTF8String CODE 7 }\nNumeric KIND ::= { k-int | k-bool }\nOpaque KIND ::= { k-null | k-oct }\nTextual KIND ::= { k-str | k-oid }\nLate KIND ::= { k-real }\nAllKinds KIND ::= { Numeric | Opaque | Textual | Late }\nSome KIND ::= { Textual | Numeric }\nEnvelope ::= SEQUENCE { code KIND.&code ({AllKinds}), body KIND.&Body ({AllKinds}{@code}) }\nSmall ::= SEQUENCE { code KIND.&code ({Some}), body KIND.&Body ({Some}{@code}) }\nEND\n".into()],
+    ));
+    // alias chains of two and three hops, values governed through them, CHOICE values that name other values
+    // (`edition_twin` holds another edition of the same module in which the chains end elsewhere)
+    out.push(("editions".into(), vec![EDITION_A.into()]));
+    out.push(("editions-b".into(), vec![EDITION_B.into()]));
     let mut rng = Rng::new(cfg.seed ^ 0x57A7E);
     for k in 0..cfg.budget(6, 40) {
         let mut g = Gen { rng: &mut rng, info_objects: true };
@@ -532,6 +541,18 @@ fn state_sensitive_inputs(cfg: &RunCfg) -> Vec<(String, Vec<String>)> {
         out.push((format!("generated-{k}"), vec![m.text()]));
     }
     out
+}
+
+const EDITION_A: &str = "Ed-Mod DEFINITIONS AUTOMATIC TAGS ::= BEGIN\nBound ::= Step\nStep ::= Narrow\nNarrow ::= INTEGER (0..200)\nBroad ::= INTEGER\nLabel ::= Name\nName ::= Short\nShort ::= BOOLEAN\nLong ::= UTF8String\nMode ::= CHOICE { bound Bound, label Label, none NULL }\nbase-bound Bound ::= 9\nbase-label Label ::= TRUE\nstart Mode ::= bound : base-bound\nnamed Mode ::= label : base-label\nHolder ::= SEQUENCE { b Bound DEFAULT base-bound, m Mode OPTIONAL }\nEND\n";
+const EDITION_B: &str = "Ed-Mod DEFINITIONS AUTOMATIC TAGS ::= BEGIN\nBound ::= Step\nStep ::= Broad\nNarrow ::= INTEGER (0..200)\nBroad ::= INTEGER\nLabel ::= Name\nName ::= Long\nShort ::= BOOLEAN\nLong ::= UTF8String\nMode ::= CHOICE { bound Bound, label Label, none NULL }\nbase-bound Bound ::= 9\nbase-label Label ::= \"x\"\nstart Mode ::= bound : base-bound\nnamed Mode ::= label : base-label\nHolder ::= SEQUENCE { b Bound DEFAULT base-bound, m Mode OPTIONAL }\nEND\n";
+
+/// another edition of a state-sensitive input: the same names standing for other types
+fn edition_twin(label: &str) -> Option<Vec<String>> {
+    match label {
+        "editions" => Some(vec![EDITION_B.into()]),
+        "editions-b" => Some(vec![EDITION_A.into()]),
+        _ => None,
+    }
 }
 
 /// every decimal literal n -> n + 1 (names untouched)
@@ -598,6 +619,16 @@ fn process_state(cfg: &RunCfg, rep: &mut Report, only: Option<(&str, bool)>) {
             let twin: Vec<String> = srcs.iter().map(|t| bump_numbers(t)).collect();
             let _ = compile_rasn_cfg(&twin, mk());
             results.push(("after compiling a twin with the same names and other numbers, same thread".into(), canon(&compile_rasn_cfg(srcs, mk()))));
+            if let Some(other) = edition_twin(label) {
+                let _ = compile_rasn_cfg(&other, mk());
+                results.push(("after compiling another edition of the module (same names, other types), same thread".into(), canon(&compile_rasn_cfg(srcs, mk()))));
+                // and the other way round: the other edition after this one against its own fresh result is the next input's business;
+                // here: this edition on a thread that has seen the other one twice
+                let (s2, o2) = (srcs.clone(), other.clone());
+                if let Ok(c) = std::thread::spawn(move || { let _ = compile_rasn_cfg(&o2, mk()); let _ = compile_rasn_cfg(&o2, mk()); canon(&compile_rasn_cfg(&s2, mk())) }).join() {
+                    results.push(("on a new thread after the other edition".into(), c));
+                }
+            }
             for r in 0..12 {
                 results.push((format!("repetition {r} in the long-lived process"), canon(&compile_rasn_cfg(srcs, mk()))));
             }
